@@ -405,6 +405,12 @@ def tie_b(prop, cases, seed, tier, priority):
             for q in pr:
                 q['tag'] = 'zeroize' if prop == 'C18' else 'drop'
             problems += pr
+    # the glue around the macro (macro paths, cfg, macro_rules!, `Self`, defaults): fixed crate, judged against the standard derive
+    if prop in ('C02', 'C03', 'C04', 'C10'):
+        for c in cfgs:
+            st, pr = tieb.run_extras(c)
+            out[c]['glue_items'] = st['items']
+            problems += pr
     # C12, thorough: the default-feature binary once more under Miri, which checks every executed operation for UB
     if prop == 'C12' and (tier == 'thorough' or os.environ.get('VERIF_MIRI') == '1'):
         st, pr = tieb.run('default', cases, seed, 160, r'^(disc|inc|skip|skip_inner|basic|rand)/', None, priority, False, True)
@@ -640,6 +646,9 @@ def check(prop, tier, seed):
             continue
         elif p['kind'] == 'compile' and p.get('scope') == 'crate-option':
             owned = prop in ('C18', 'C19', 'C14')
+        elif p.get('scope') == 'extras':
+            # the fixed glue crate: it does not build (C02), or an observation differs from the standard derive's on the mirror type
+            owned = prop == 'C02' or p['kind'] == 'std-mirror'
         elif p['kind'] == 'compile':
             # an accepted item whose real expansion does not compile: C02's subject, and a failing input for whichever property owns
             # the slice in which the model and the implementation differ on that very item
@@ -746,9 +755,10 @@ def cleanup_stale_scratch(max_age_s=3 * 3600):
     root = runner.SCRATCH_ROOT
     try:
         for n in os.listdir(root):
-            if n.startswith(('dwcoq-', 'dwverif-', 'dwprobe-', 'dwdiag-', 'dwsolver-', 'dwnostd-', 'dwcrateopt-', 'dwmut-')):
+            if n.startswith(('dwcoq-', 'dwverif-', 'dwprobe-', 'dwdiag-', 'dwsolver-', 'dwnostd-', 'dwcrateopt-', 'dwextras-', 'dwmut-')):
                 p = os.path.join(root, n)
-                if os.path.isdir(p) and time.time() - os.path.getmtime(p) > max_age_s:
+                age = max_age_s * (6 if n.startswith('dwmut-') else 1)     # a mutation run legitimately lasts hours
+                if os.path.isdir(p) and time.time() - os.path.getmtime(p) > age:
                     shutil.rmtree(p, ignore_errors=True)
     except OSError:
         pass
